@@ -457,15 +457,16 @@ def check_c04(world):
     GAP = 1_000_000_000
     pushes = {}    # (c key, p nid) -> [t]
     for r in world.reqs:
-        step, now, ckey, sid, mid, eph, new, how, pnid = r
-        if eph or pnid is None or mid is None or mid < -1:
+        step, now, ckey, sid, mid, eph, new, how, pnid, entry_eph = r
+        # whether the channel is synchronized is taken from the configuration, not from what the request claims
+        if entry_eph or pnid is None or mid is None or mid < -1:
             continue
         pushes.setdefault((ckey, pnid), []).append(now)
     deqs = {}      # (p key, c key) -> [t]
     handshake = (sc.get('knobs') or {}).get('ZMQ_CONN_HANDSHAKE', True)
     for e in world.events:
         # a request flagged 'new' does not register the client while the handshake is on
-        if e[0] == 'pullrecv' and not e[6] and e[5] is not None and e[5] >= -1 and not (e[7] and handshake):
+        if e[0] == 'pullrecv' and not e[9] and e[5] is not None and e[5] >= -1 and not (e[7] and handshake):
             deqs.setdefault((e[3], e[4]), []).append(e[2])
     pubs_by = {}   # p key -> [(t0, mid)]
     for (owner, mid), rec in world.pubs.items():
@@ -965,6 +966,28 @@ def check_c08(world):
             elif ended[nid][1] > bound:
                 out.append(V('C08', 'obeyed_late', f'{nid} ended {((ended[nid][1] - t_x) / 1e9):.2f}s after {x}', None, t_x,
                              **sig))
+    # outside the steady state (X ended during start-up) nothing can be said about who was connected, but a filter that
+    # actually READ the announcement from its socket must obey it
+    if not steady and x in ended:
+        reads = {}
+        for e in world.events:
+            if e[0] == 'pullrecv' and e[5] == -2:
+                reads.setdefault((e[3].split('#')[0], e[4].split('#')[0]), e[2])
+            elif e[0] == 'subrecv_oob':
+                reads.setdefault((e[3].split('#')[0], e[4].split('#')[0]), e[2])
+        for nid, (k2, why, depth) in exp.items():
+            if nid == x or why not in ended:
+                continue
+            t_read = reads.get((nid, why))
+            if t_read is None or world.live_proc(nid) is None and nid not in ended:
+                continue
+            stats['c08_early_read_checks'] += 1
+            if nid not in ended and world.final_now > t_read + 1_000_000_000:
+                relation = 'upstream' if any(s['from'] == nid for s in nodes[why].get('sources') or []) else 'downstream'
+                out.append(V('C08', 'did_not_obey',
+                             f'{nid} read the exit announcement of {why} ({kind}) at {(t_read - EPOCH_NS) / 1e9:.3f}s but keeps '
+                             f'running; policies {_pol(sc)} prescribe that it ends', None, t_read, relation=relation,
+                             blocked='announcement_read', **sig))
     # exit_after: ends cleanly within one loop iteration after T
     if cause.startswith('exit_after') and x in ended and ended[x][0] == 'run_return':
         t0 = next((t for n, t, _ in life[(x, 0)] if n == 'init_enter'), None)
